@@ -131,6 +131,11 @@ func (e *Encoder) MaxDynamicTableSize() (v uint32) {
 func (e *Encoder) SetMaxDynamicTableSizeLimit(v uint32) {
 	e.maxSizeLimit = v
 	if e.dynTab.maxSize > v {
+		// The table shrinks now: the decoder has to be told about this
+		// size even if the size is raised again before the next block.
+		if v < e.minSize {
+			e.minSize = v
+		}
 		e.tableSizeUpdate = true
 		e.dynTab.setMaxSize(v)
 	}
